@@ -8,6 +8,7 @@
 
 #include <yaclib/async/connect.hpp>
 #include <yaclib/async/contract.hpp>
+#include <yaclib/async/make.hpp>
 #include <yaclib/async/future.hpp>
 #include <yaclib/async/promise.hpp>
 #include <yaclib/async/shared_contract.hpp>
@@ -134,14 +135,15 @@ Expect Expected(int kind, int code) {
   }
 }
 
-void CheckObs(Ctx& ctx, const Obs& o, Expect e, const Shared& sh, int want_calls, const char* what) {
+void CheckObs(Ctx& ctx, const Obs& o, Expect e, const Shared& sh, int want_calls, const char* what,
+              const char* props = "C01") {
   int calls = o.calls.load(kRlx);
-  ctx.Check(calls == want_calls, "exactly-once", "C01", "%s observed %d times, expected %d", what, calls, want_calls);
+  ctx.Check(calls == want_calls, "exactly-once", props, "%s observed %d times, expected %d", what, calls, want_calls);
   if (calls >= 1 && want_calls >= 1) {
-    ctx.Check(o.state == e.state && o.code == e.code, "result-equal", "C01",
+    ctx.Check(o.state == e.state && o.code == e.code, "result-equal", props,
               "%s saw state=%d code=%d, producer set state=%d code=%d", what, o.state, o.code, e.state, e.code);
-    ctx.Check(o.fresh, "payload-intact", "C01", "%s read a torn or moved-from payload", what);
-    ctx.Check(o.at > sh.set_call, "not-before-set", "C01", "%s ran at t=%llu before the producer's Set began (t=%llu)",
+    ctx.Check(o.fresh, "payload-intact", props, "%s read a torn or moved-from payload", what);
+    ctx.Check(o.at > sh.set_call, "not-before-set", props, "%s ran at t=%llu before the producer's Set began (t=%llu)",
               what, (unsigned long long)o.at, (unsigned long long)sh.set_call);
     ctx.Check(o.side == sh.side, "visibility", "C01,C04", "%s read side=%d, producer wrote %d before fulfilling", what,
               o.side, sh.side);
@@ -426,6 +428,121 @@ void CoreCase(Ctx& ctx, int ck) {
   }
 }
 
+// ------------------------------------------------------------------------------------------------
+// A step that returns a Future / SharedFuture which another thread fulfils while the step is being flattened: the
+// continuation behind the step must run exactly once with the inner result (C02 "a returned Future, SharedFuture ... is
+// flattened so the step completes with the inner result", here under every interleaving with the inner producer).
+void FlattenCase(Ctx& ctx, bool inner_shared) {
+  using R = Result<Tracked, MyError>;
+  ResetTags();
+  int pk = static_cast<int>(ctx.rng.Below(4));
+  int code = static_cast<int>(ctx.rng.In(1, 1000000));
+  u32 pj = ctx.rng.Below(5), cj = ctx.rng.Below(5);
+  int ek = static_cast<int>(ctx.rng.Below(3));
+  int attach = static_cast<int>(ctx.rng.Below(2));  // 0 ThenInline, 1 Then(e)
+  bool two_steps = ctx.rng.Coin();                  // a second flattening step on another copy (shared only)
+  Expect exp = Expected<Tracked>(pk, code);
+  ctx.Class(kProducerName[pk]);
+  ctx.Note("step returning a pending %s, attached with %s, inner producer=%s code=%d pre-yields p=%u c=%u exec=%d ",
+           inner_shared ? "SharedFuture" : "Future", attach == 0 ? "ThenInline" : "Then(e)", kProducerName[pk], code, pj, cj, ek);
+  Shared sh;
+  Obs obs, obs_b;
+  ExecRig rig{ek};
+  bool kept_ok = true;
+  {
+    yaclib::Future<Tracked, MyError> fi;
+    yaclib::Promise<Tracked, MyError> pi;
+    yaclib::SharedFuture<Tracked, MyError> sfi, kept;
+    yaclib::SharedPromise<Tracked, MyError> spi;
+    if (inner_shared) {
+      auto [f, p] = yaclib::MakeSharedContract<Tracked, MyError>();
+      sfi = std::move(f);
+      spi = std::move(p);
+      kept = sfi;
+    } else {
+      auto [f, p] = yaclib::MakeContract<Tracked, MyError>();
+      fi = std::move(f);
+      pi = std::move(p);
+    }
+    yaclib::Future<void, MyError> tail, tail_b;
+    yaclib_std::thread producer([&] {
+      Jitter(pj);
+      if (!inner_shared) {
+        Produce<Tracked>(std::move(pi), pk, code, sh);
+        return;
+      }
+      VF_W(sh.side, "C04,C01");
+      sh.side = code;
+      sh.set_call = Stamp();
+      if (pk == kVal) {
+        std::move(spi).Set(Tracked{code});
+      } else if (pk == kErr) {
+        std::move(spi).Set(MyError{code});
+      } else if (pk == kExc) {
+        std::move(spi).Set(std::make_exception_ptr(MyException{code}));
+      } else {
+        auto q = std::move(spi);
+      }
+      sh.set_ret = Stamp();
+    });
+    yaclib_std::thread consumer([&] {
+      Jitter(cj);
+      auto build = [&](Obs& o, auto&& inner) {
+        auto step = [in = std::forward<decltype(inner)>(inner)]() mutable {
+          return std::move(in);
+        };
+        auto done = [&o, &sh](R&& r) {
+          Digest<Tracked>(o, r, sh);
+        };
+        if (attach == 0) {
+          return yaclib::MakeFuture<void, MyError>().ThenInline(std::move(step)).ThenInline(done);
+        }
+        return yaclib::MakeFuture<void, MyError>().Then(*rig.tag, std::move(step)).ThenInline(done).On(nullptr);
+      };
+      if (inner_shared) {
+        tail = build(obs, yaclib::SharedFuture<Tracked, MyError>{sfi});
+        if (two_steps) {
+          tail_b = build(obs_b, std::move(sfi));
+        }
+        sfi = {};
+      } else {
+        tail = build(obs, std::move(fi));
+      }
+    });
+    producer.join();
+    consumer.join();
+    if (ek == 1) {
+      while (static_cast<yaclib::ManualExecutor&>(*rig.manual).Drain() != 0) {
+      }
+    }
+    if (tail.Valid()) {
+      yaclib::Wait(tail);
+    }
+    if (tail_b.Valid()) {
+      yaclib::Wait(tail_b);
+    }
+    tail = {};
+    tail_b = {};
+    if (inner_shared) {
+      // the handle kept outside still holds exactly what was set, however often the state was flattened
+      const R& r = std::as_const(kept).Get();
+      Obs k;
+      Digest<Tracked>(k, r, sh);
+      kept_ok = k.state == exp.state && k.code == exp.code && k.fresh;
+      kept = {};
+    }
+    rig.Quiesce();
+  }
+  bool overlapped = true;
+  ctx.SetNontrivial(overlapped);
+  CheckObs(ctx, obs, exp, sh, 1, "continuation behind the flattening step", "C02,C01");
+  if (inner_shared && two_steps) {
+    CheckObs(ctx, obs_b, exp, sh, 1, "continuation behind the second flattening step", "C02,C01");
+  }
+  ctx.Check(kept_ok, "shared-state-intact", "C02,C06",
+            "the SharedFuture returned by the step no longer holds the Result that was set (moved-from or changed)");
+}
+
 void Dispatch(Ctx& ctx, int ck, bool allow_moveonly, bool allow_void) {
   u32 n = 1 + (allow_moveonly ? 1 : 0) + (allow_void ? 1 : 0);
   u32 k = ctx.rng.Below(n);
@@ -443,6 +560,12 @@ void Dispatch(Ctx& ctx, int ck, bool allow_moveonly, bool allow_void) {
 
 }  // namespace
 
+VF_CELL(flatten_unique, "flatten/inner-future", "C02,C01,C03,C04", 6) {
+  FlattenCase(ctx, false);
+}
+VF_CELL(flatten_shared, "flatten/inner-shared-future", "C02,C06,C03,C04", 6) {
+  FlattenCase(ctx, true);
+}
 VF_CELL(then_inline, "then-inline", "C01,C03,C04", 10) {
   Dispatch(ctx, cThenInline, true, true);
 }
